@@ -77,6 +77,20 @@ def tiles(q, lo, hi):
     )
 
 
+def li_formulas(q, qlo, taken, n, dropped, ab, nd, bs, nj, nb, done):
+    """The lock invariant LI of Parallel._lock, part by part (also the hypotheses of the composition lemma, lemmas/c01_composition.py)."""
+    return {
+        "bounds": z3.And(0 <= qlo, qlo <= taken, taken <= n),
+        "queue-tiles-the-taken-but-undispatched-tasks": tiles(q, qlo, taken),
+        "dispatched-count-matches": z3.And(z3.Or(nd == qlo, dropped), z3.Implies(dropped, ab), nd <= qlo, nd >= 0),
+        "look-ahead-bound": taken - qlo <= bs * nj,
+        "config": z3.And(bs >= 1, nj >= 2, nb >= 0),
+        # DONE (ghost): some thread found the input iterator itself exhausted.  From then on nothing is taken and the
+        # look-ahead queue stays empty - the stable fact behind "not _iterating => every task has been dispatched"
+        "input-found-exhausted-means-drained": z3.Implies(done, z3.And(taken == n, q.head == q.tail)),
+    }
+
+
 def build():
     p = Pack("PAR2", files=[PAR, "joblib/_parallel_backends.py"])
     install_common(p)
@@ -85,29 +99,21 @@ def build():
     p.spec_funcs["ev_named"] = lambda interp, name: PyList([e for e in interp.ctx.events if e[0] == name])
     p.log_calls.update({"self._print", "self.print_progress"})
 
-    GHOST = dict(INPUTLEN=INT, TAKEN=INT, QLO=INT, DROPPED=BOOL, LIMIT=INT)
+    GHOST = dict(INPUTLEN=INT, TAKEN=INT, QLO=INT, DROPPED=BOOL, LIMIT=INT, DONE=BOOL)
 
     def G(interp, name):
         return ops.as_int_term(interp.ctx.ghost[name])
 
+    def _b(v):
+        t = ops.truth(v)
+        return z3.BoolVal(t) if isinstance(t, bool) else t
+
     def li_parts(interp, me):
         g = interp.ctx.ghost
-        q = me.fields["_ready_batches"]
-        qlo, taken, n = G(interp, "QLO"), G(interp, "TAKEN"), G(interp, "INPUTLEN")
-        dropped = ops.truth(g["DROPPED"])
-        dropped = z3.BoolVal(dropped) if isinstance(dropped, bool) else dropped
-        ab = ops.truth(me.fields["_aborting"])
-        ab = z3.BoolVal(ab) if isinstance(ab, bool) else ab
-        nd = ops.as_int_term(me.fields["n_dispatched_tasks"])
-        bs = ops.as_int_term(me.fields["batch_size"])
-        nj = ops.as_int_term(me.fields["_cached_effective_n_jobs"])
-        return {
-            "bounds": z3.And(0 <= qlo, qlo <= taken, taken <= n),
-            "queue-tiles-the-taken-but-undispatched-tasks": tiles(q, qlo, taken),
-            "dispatched-count-matches": z3.And(z3.Or(nd == qlo, dropped), z3.Implies(dropped, ab), nd <= qlo, nd >= 0),
-            "look-ahead-bound": taken - qlo <= bs * nj,
-            "config": z3.And(bs >= 1, nj >= 2, ops.as_int_term(me.fields["n_dispatched_batches"]) >= 0),
-        }
+        return li_formulas(q=me.fields["_ready_batches"], qlo=G(interp, "QLO"), taken=G(interp, "TAKEN"), n=G(interp, "INPUTLEN"),
+                           dropped=_b(g["DROPPED"]), ab=_b(me.fields["_aborting"]), nd=ops.as_int_term(me.fields["n_dispatched_tasks"]),
+                           bs=ops.as_int_term(me.fields["batch_size"]), nj=ops.as_int_term(me.fields["_cached_effective_n_jobs"]),
+                           nb=ops.as_int_term(me.fields["n_dispatched_batches"]), done=_b(g.get("DONE", False)))
 
     def li_term(interp, me):
         return z3.And(*li_parts(interp, me).values())
@@ -131,6 +137,10 @@ def build():
             for gname in ("TAKEN", "QLO"):
                 ctx.ghost[gname] = INT.fresh(ctx, gname)
             ctx.ghost["DROPPED"] = BOOL.fresh(ctx, "DROPPED")
+            if "DONE" in ctx.ghost:
+                old_done = _b(ctx.ghost["DONE"])
+                ctx.ghost["DONE"] = BOOL.fresh(ctx, "DONE")
+                ctx.assume(z3.Implies(old_done, ctx.ghost["DONE"].term))  # stable
             ctx.assume(li_term(interp, me))
             ctx.ghost["TAKEN@acquire"] = ctx.ghost["TAKEN"]
             ctx.ghost["QLO@acquire"] = ctx.ghost["QLO"]
@@ -213,6 +223,9 @@ def build():
             interp.raise_("ValueError")
         ctx.assume(k == z3.If(n < avail, n, avail))
         ctx.assume(n >= 0)
+        if "DONE" in ctx.ghost:
+            # ghost update: the underlying input iterator yielded nothing although the slice asked for n > 0 items
+            ctx.ghost["DONE"] = ops.mk_bool(z3.Or(_b(ctx.ghost["DONE"]), z3.And(n > 0, k == 0, taken >= total)))
         ctx.ghost["TAKEN"] = Sym(INT, taken + k)
         ctx.events.append(("pull", Sym(INT, k), "ok"))
         return Segment(taken, taken + k)
@@ -317,7 +330,9 @@ def build():
             "true_means_progress": "implies(result, n_events('submit') + n_events('dropped') == 1 or n_events('register_outcome') == 1)",
             "dispatched_batch_continues_the_sequence": "implies(n_events('submit') == 1, submitted()[0].lo == at_acquire('QLO') and submitted()[0].hi > submitted()[0].lo)",
             "false_means_nothing_left_or_aborting": "implies(not result and not old(self._aborting), n_events('submit') == 0 and n_events('queue.get') == 0 and TAKEN == at_acquire('TAKEN'))",
-            "false_means_the_iterator_was_found_exhausted": "implies(not result and not old(self._aborting), n_events('pull') == 1 and pulled() == 0 and exhausted(iterator))",
+            "false_means_the_iterator_was_found_exhausted": "implies(not result and not old(self._aborting), n_events('pull') == 1 and pulled() == 0 and exhausted(iterator) "
+                                                            "and queue_is_empty(self))",
+            "false_on_the_input_itself_means_done": "implies(not result and not old(self._aborting), DONE or (is_tag(iterator, 'limited') and TAKEN >= LIMIT))",
             # C04: a failing input iterator is turned into a failed job of this call and the retrieval loop keeps running
             "iterator_failure_is_never_swallowed": "implies(iterator_raised(), n_events('register_outcome') == 1 and result)",
             "iterator_failure_is_registered": "implies(n_events('register_outcome') == 1, result and ev_named('register_outcome')[0][2] == 'Error' and n_events('register_new_job') == 1 "
@@ -340,6 +355,7 @@ def build():
         return ops.mk_bool(taken >= total)
 
     p.spec_funcs["exhausted"] = exhausted
+    p.spec_funcs["queue_is_empty"] = lambda interp, me: ops.mk_bool(me.fields["_ready_batches"].head == me.fields["_ready_batches"].tail)
     p.spec_funcs["iterator_raised"] = lambda interp: any(e[0] == "pull" and e[2] == "raised" for e in interp.ctx.events)
 
     # ---- dispatch_next / _start use dispatch_one_batch through its contract (summary: returns a bool, may dispatch one batch)
@@ -351,17 +367,18 @@ def build():
         r = BOOL.fresh(ctx, "dispatched")
         ctx.ghost.setdefault("D1B_RESULTS", []).append(r)
         if "SLICE_TAKEN" in ctx.ghost:
+            # clauses false_means_the_iterator_was_found_exhausted / false_on_the_input_itself_means_done of its contract;
+            # DONE is stable (lock invariant part input-found-exhausted-means-drained)
             it = args[0]
             aborted = BOOL.fresh(ctx, "abort_seen")
             ctx.ghost["ABORT_SEEN"] = ops.mk_bool(ops.b_or(ops.truth(ctx.ghost["ABORT_SEEN"]), ops.truth(aborted)))
-            st0, t0 = G(interp, "SLICE_TAKEN"), G(interp, "TAKEN")
-            st1, t1 = z3.Int(ctx.fresh_name("slice_taken")), z3.Int(ctx.fresh_name("taken"))
+            st0, d0 = G(interp, "SLICE_TAKEN"), _b(ctx.ghost["DONE"])
+            st1, d1 = z3.Int(ctx.fresh_name("slice_taken")), z3.Bool(ctx.fresh_name("done"))
             limited = isinstance(it, Opaque) and it.tag == "limited"
-            lim = ops.as_int_term(it.attrs["n"]) if limited else None
-            done = z3.Or(t1 >= G(interp, "INPUTLEN"), st1 >= lim) if limited else t1 >= G(interp, "INPUTLEN")
-            ctx.assume(z3.And(t1 >= t0, st1 >= st0, t1 <= G(interp, "INPUTLEN"),
-                              z3.Implies(z3.Not(ops.truth(r)), z3.And(st1 == st0, z3.Or(ops.truth(aborted), done)))))
-            ctx.ghost["SLICE_TAKEN"], ctx.ghost["TAKEN"] = Sym(INT, st1), Sym(INT, t1)
+            used_up = st1 >= ops.as_int_term(it.attrs["n"]) if limited else z3.BoolVal(False)
+            ctx.assume(z3.And(st1 >= st0, z3.Implies(d0, d1),
+                              z3.Implies(z3.Not(ops.truth(r)), z3.And(st1 == st0, z3.Or(ops.truth(aborted), d1, used_up)))))
+            ctx.ghost["SLICE_TAKEN"], ctx.ghost["DONE"] = Sym(INT, st1), ops.mk_bool(d1)
         return r
 
     sglob = {}
@@ -372,11 +389,14 @@ def build():
         return c
 
     p.add(with_summary(Contract(
-        PAR, "Parallel.dispatch_next", props=["C01", "C09", "C04"],
+        PAR, "Parallel.dispatch_next", props=["C01", "C09", "C04"], ghost=dict(SLICE_TAKEN=INT, ABORT_SEEN=BOOL, DONE=BOOL),
         params=dict(self=parallel(_original_iterator=OpaqueOf("taskiter"))),
-        ensures={"uses_the_original_iterator": "n_events('dispatch_one_batch') == 1 and ev_named('dispatch_one_batch')[0][1] is old(self._original_iterator)",
-                 "stops_iterating_when_exhausted": "implies(not last_dispatch(), self._iterating is False and self._original_iterator is None)",
-                 "keeps_iterating_otherwise": "implies(last_dispatch(), self._original_iterator is old(self._original_iterator) and self._iterating == old(self._iterating))"},
+        requires=["implies(self._aborting, ABORT_SEEN)"],
+        ensures={"uses_the_original_iterator": "n_events('dispatch_one_batch') <= 1 and implies(n_events('dispatch_one_batch') == 1, ev_named('dispatch_one_batch')[0][1] is old(self._original_iterator))",
+                 "stops_iterating_when_exhausted": "implies(n_events('dispatch_one_batch') == 1 and not last_dispatch(), self._iterating is False and self._original_iterator is None)",
+                 "stops_iterating_only_when_the_input_is_done_or_aborting": "implies(self._iterating is False and old(self._iterating), DONE or ABORT_SEEN)",
+                 "clears_the_iterator_only_when_the_input_is_done_or_aborting": "implies(self._original_iterator is None, DONE or ABORT_SEEN)",
+                 "keeps_iterating_otherwise": "implies(n_events('dispatch_one_batch') == 1 and last_dispatch(), self._original_iterator is old(self._original_iterator) and self._iterating == old(self._iterating))"},
     )))
     p.spec_funcs["last_dispatch"] = lambda interp: interp.ctx.ghost["D1B_RESULTS"][-1]
     p.spec_funcs["is_tag"] = lambda interp, o, tag: isinstance(o, Opaque) and o.tag == tag
@@ -388,24 +408,24 @@ def build():
         return Opaque("taskiter", None)
     p.add(with_summary(Contract(
         PAR, "Parallel._start", props=["C01", "C09", "C04"],
-        ghost=dict(INPUTLEN=INT, TAKEN=INT, SLICE_TAKEN=INT, ABORT_SEEN=BOOL),
+        ghost=dict(SLICE_TAKEN=INT, ABORT_SEEN=BOOL, DONE=BOOL),
         params=dict(self=parallel(_original_iterator=Opt(OpaqueOf("taskiter"))), iterator=start_iterator, pre_dispatch=OneOf("all", INT)),
-        requires=["SLICE_TAKEN == 0 and 0 <= TAKEN and TAKEN <= INPUTLEN and ABORT_SEEN is False",
+        requires=["SLICE_TAKEN == 0",
                   # established by Parallel.__call__ (part 4): 'all' hands the input itself over and disables callbacks' dispatching
                   "(pre_dispatch == 'all') == is_tag(iterator, 'taskiter')", "implies(pre_dispatch == 'all', self._original_iterator is None)",
-                  # a callback thread that exhausts the input clears _original_iterator (dispatch_next)
-                  "implies(pre_dispatch != 'all' and self._original_iterator is None, TAKEN >= INPUTLEN)",
+                  # a callback thread clears _original_iterator only when the input is done or the call aborts (dispatch_next)
+                  "implies(pre_dispatch != 'all' and self._original_iterator is None, DONE or ABORT_SEEN)",
                   # the obligation on the caller: the slice dispatched by the calling thread is not empty by construction
                   "implies(is_tag(iterator, 'limited'), limited_to(iterator) >= 1)"],
         ensures={"dispatches_until_the_slice_is_exhausted": "not_true(last_dispatch())",
-                 "no_task_is_left_behind": "implies(not ABORT_SEEN, self._iterating or TAKEN >= INPUTLEN)",
+                 "no_task_is_left_behind": "implies(not ABORT_SEEN, self._iterating or DONE)",
                  "all_means_no_lazy_dispatch_left": "implies(pre_dispatch == 'all', self._iterating is False)",
                  "iterating_only_if_something_was_dispatched_and_callbacks_may_continue": "implies(self._iterating, first_dispatch() and self._original_iterator is not None)"},
         loops={1: Loop("while self.dispatch_one_batch(iterator)",
                        invariant={"iterating_flag": "implies(self._iterating, first_dispatch() and self._original_iterator is not None)",
-                                  "nothing_left_behind_so_far": "implies(not ABORT_SEEN and not self._iterating, TAKEN >= INPUTLEN or (first_dispatch() and self._original_iterator is None))",
-                                  "counts": "old(TAKEN) <= TAKEN and TAKEN <= INPUTLEN"},
-                       havoc=["ghost:TAKEN", "ghost:SLICE_TAKEN", "ghost:ABORT_SEEN"])},
+                                  "nothing_left_behind_so_far": "implies(not ABORT_SEEN and not self._iterating, DONE or (first_dispatch() and self._original_iterator is None))",
+                                  "done_is_stable": "implies(old(DONE), DONE) and implies(old(ABORT_SEEN), ABORT_SEEN)"},
+                       havoc=["ghost:SLICE_TAKEN", "ghost:ABORT_SEEN", "ghost:DONE"])},
     )))
     p.spec_funcs["first_dispatch"] = lambda interp: interp.ctx.ghost["D1B_RESULTS"][0]
     p.spec_funcs["not_true"] = lambda interp, b: ops.mk_bool(ops.b_not(ops.truth(b)))
